@@ -65,6 +65,8 @@ def fmt_atom(a):
     if isinstance(a, tuple) and a[0] == "arg": return a[2] if len(a) > 2 else "arg%d" % a[1]
     if isinstance(a, tuple) and a[0] == "udiv": return "floor((%s)/%d)" % (a[3] if len(a) > 3 else "...", a[2])
     if isinstance(a, tuple) and a[0] == "call": return "%s(..)" % a[1]
+    if isinstance(a, tuple) and a[0] == "urem": return "((%s) mod %d)" % (a[3], a[2])
+    if isinstance(a, tuple) and a[0] == "ind": return "[%s > 0]" % a[2]
     if isinstance(a, tuple) and a[0] == "q": return "/".join(a[1:])
     if isinstance(a, tuple) and a[0] == "len": return "len%x(%s)" % (a[1], a[2])
     return repr(a)
@@ -74,6 +76,46 @@ def udiv_poly(p, c):
     """floor(p / c) as a polynomial atom (exact when p is constant)"""
     if p.is_const(): return Poly.const(int(p.c()) // c) if p.c().denominator == 1 else Poly.const(p.c() / c)
     return Poly.atom(("udiv", p.key(), c, repr(p)))
+
+
+def urem_poly(p, c):
+    if p.is_const() and p.c().denominator == 1: return Poly.const(int(p.c()) % c)
+    return Poly.atom(("urem", p.key(), c, repr(p)))
+
+
+def ind_poly(p):
+    """[p > 0]"""
+    if p.is_const(): return Poly.const(1 if p.c() > 0 else 0)
+    return Poly.atom(("ind", p.key(), repr(p)))
+
+
+def deep_subst(p, mapping):
+    """substitute atoms (also inside the arguments of div / mod / indicator atoms) by polynomials"""
+    def sa(a):
+        if a in mapping: return mapping[a]
+        if isinstance(a, tuple) and a[0] in ("udiv", "urem", "ind"):
+            inner = deep_subst(poly_of_key(a[1]), mapping)
+            if a[0] == "udiv": return udiv_poly(inner, a[2])
+            if a[0] == "urem": return urem_poly(inner, a[2])
+            return ind_poly(inner)
+        return Poly.atom(a)
+    out = Poly()
+    for k, v in p.t.items():
+        term = Poly.const(v)
+        for x in k: term = term * sa(x)
+        out = out + term
+    return out
+
+
+def all_atoms(p):
+    out = set()
+    for a in p.atoms():
+        out.add(a)
+        if isinstance(a, tuple) and a[0] in ("udiv", "urem", "ind"): out |= all_atoms(poly_of_key(a[1]))
+    return out
+
+
+def poly_of_key(key): return Poly({k: Fraction(n, d) for k, (n, d) in key})
 
 
 def pmax(a, b):
@@ -94,6 +136,9 @@ class UB:
         self.loops = fn.loops(); fn.dom()
         self.sub = {}                # phi id -> placeholder polynomial while computing a loop advance
         self.arg_role = {}           # k -> role name of the actual (sibling mode, when analysing a helper in its caller's context)
+        self.exact_args = {}         # k -> exact polynomial of the actual (when evaluating a sizing function in its caller's terms)
+        self.q = False               # quasi-polynomial mode: exact mod / div atoms, guarded joins, block-loop lemmas (compared by residues)
+        self.dead = set(); self.unreach = set(); self.block_case = {}; self.site = None
         self.roles = False           # sibling mode: length calls and loads become atoms named by table / role (sa/sizeterms.py)
         self.H = frozenset()         # loop headers whose continuation test the current use site has already passed
         self.memos = {frozenset(): self.memo}; self.be_test = {}
@@ -113,8 +158,103 @@ class UB:
                 if stay is None: continue
                 sb = self.fn.bmap[stay]
                 if [p.id for p in sb.preds] == [tb] and self.fn.dominates(stay, block.id): H.add(h)
-        self.H = frozenset(H); self.memo = self.memos.setdefault(self.H, {})
+        self.H = frozenset(H); self.site = block
+        inside = frozenset(h for h, body in self.loops.items() if block.id in body) if self.q else frozenset()
+        self.memo = self.memos.setdefault((self.H, inside), {})
         return self
+
+    def outside(self, h):
+        """is the current use site outside loop h (so that a header phi of h denotes its value at loop exit)?"""
+        return self.site is not None and self.site.id not in self.loops[h]
+
+    # ---- exact values (q-mode) ----
+    def exact(self, o, depth=0):
+        """the value as an exact polynomial over parameters with div/mod atoms, or None.  Unsigned arithmetic is assumed not to wrap."""
+        if depth > 12: return None
+        k = o["k"]
+        if k == "int": return Poly.const(int(o["v"]))
+        if k == "arg":
+            if o["v"] in self.exact_args: return self.exact_args[o["v"]]
+            return Poly.atom(self.arg_atom(o["v"])) if o["v"] not in self.arg_poly else None
+        if k != "inst": return None
+        if o["v"] in self.sub: return None
+        i = self.fn.imap[o["v"]]; E = lambda n: self.exact(i.ops[n], depth + 1)
+        if i.op in ("zext", "freeze"): return E(0)
+        if i.op == "trunc":
+            e = E(0); hi = self.iv.ival(i.ops[0])[1]
+            return e if e is not None and hi != INF and hi < (1 << (type_bits(i["t"]) or 64)) else None
+        if i.op in ("add", "sub", "mul"):
+            a, b = E(0), E(1)
+            if a is None or b is None: return None
+            return a + b if i.op == "add" else (a - b if i.op == "sub" else a * b)
+        if i.op in ("udiv", "urem") and i.ops[1]["k"] == "int" and int(i.ops[1]["v"]) > 0:
+            a = E(0)
+            if a is None: return None
+            return udiv_poly(a, int(i.ops[1]["v"])) if i.op == "udiv" else urem_poly(a, int(i.ops[1]["v"]))
+        if i.op == "phi" and i.block.id in self.loops and self.outside(i.block.id):
+            d = self.decrement_loop(i)
+            if d is not None:
+                init, B = d; e = self.exact(init, depth + 1)
+                if e is not None: return urem_poly(e, B)
+        if i.op == "phi" and i.block.id not in self.loops and len(i["incoming"]) == 2:
+            g = self.guard_of_join(i, i["incoming"])
+            if g is not None:
+                x, pos, zero = g
+                saved = self.site; self.site = i.block
+                try: e = self.exact(x, depth + 1); pv = self.exact(pos["v"], depth + 1); zv = self.exact(zero["v"], depth + 1)
+                finally: self.site = saved
+                if e is not None and pv is not None and zv is not None: return zv + ind_poly(e) * (pv - zv)
+        if i.op == "call":
+            g = self.mod.fn(i.get("callee") or "")
+            if g is not None and not g.decl and self.depth < 4:
+                sub = UB(self.w, g, depth=self.depth + 1); sub.q = self.q
+                for k in range(i["nargs"]):
+                    e = self.exact(i.ops[k], depth + 1)
+                    if e is None: return None
+                    sub.exact_args[k] = e
+                return sub.exact_return()
+        return None
+
+    def exact_return(self):
+        """exact value of the function's result for a non-empty input (the `return 0` of an emptiness test is skipped), or None"""
+        out = None
+        for rt in self.fn.rets():
+            if not rt.ops: continue
+            v = rt.ops[0]
+            cands = [v]
+            if v["k"] == "inst" and self.fn.imap[v["v"]].op == "phi" and self.fn.imap[v["v"]].block is rt.block:
+                incs = [inc["v"] for inc in self.fn.imap[v["v"]]["incoming"]]
+                if any(c["k"] == "int" and int(c["v"]) == 0 for c in incs): cands = incs       # `if (count == 0) return 0;` merged into the return block
+            for c in cands:
+                if c["k"] == "int" and int(c["v"]) == 0: continue
+                self.site = rt.block
+                e = self.exact(c)
+                if e is None or (out is not None and e != out): return None
+                out = e
+        return out
+
+    def decrement_loop(self, ph):
+        """ph is the header phi of `while (x >= B) { ...; x -= B; }` (only exit: the header test): returns (initial operand, B)"""
+        fn = self.fn; h = ph.block.id; body = self.loops[h]
+        back = [inc["v"] for inc in ph["incoming"] if inc["b"] in body]; out = [inc["v"] for inc in ph["incoming"] if inc["b"] not in body]
+        if len(back) != 1 or len(out) != 1 or back[0]["k"] != "inst": return None
+        bi = fn.imap[back[0]["v"]]
+        if bi.op == "add" and bi.ops[1]["k"] == "int" and int(bi.ops[1]["sv"]) < 0: B = -int(bi.ops[1]["sv"])
+        elif bi.op == "sub" and bi.ops[1]["k"] == "int": B = int(bi.ops[1]["v"])
+        else: return None
+        if not (bi.ops[0]["k"] == "inst" and bi.ops[0]["v"] == ph.id) or B <= 0: return None
+        t = ph.block.term
+        if t.op != "br" or len(t.ops) != 3 or t.ops[0]["k"] != "inst": return None
+        ci = fn.imap[t.ops[0]["v"]]
+        if ci.op != "icmp" or not (ci.ops[0]["k"] == "inst" and ci.ops[0]["v"] == ph.id) or ci.ops[1]["k"] != "int": return None
+        kk = int(ci.ops[1]["v"]); stay = t.ops[2]["v"] in body
+        okp = (ci["pred"] == "uge" and kk == B and stay) or (ci["pred"] == "ugt" and kk == B - 1 and stay) or (ci["pred"] == "ult" and kk == B and not stay)
+        if not okp: return None
+        # no other exit from the loop
+        for bid in body:
+            if bid == h: continue
+            if any(sx.id not in body for sx in fn.bmap[bid].succs): return None
+        return out[0], B
 
     def trips(self, h):
         b = self.backedges(h)
@@ -139,12 +279,13 @@ class UB:
         vid = o["v"]
         if vid in self.sub: return self.sub[vid]
         if vid in self.memo: return self.memo[vid]
-        if vid in self.busy: raise Unbounded("cyclic dependency at %%%s" % vid)
-        self.busy.add(vid)
+        bk = (vid, tuple(sorted(self.sub)))
+        if bk in self.busy: raise Unbounded("cyclic dependency at %%%s" % vid)
+        self.busy.add(bk)
         try:
             r = self._ub(self.fn.imap[vid])
         finally:
-            self.busy.discard(vid)
+            self.busy.discard(bk)
         if not self.sub: self.memo[vid] = r
         return r
 
@@ -155,7 +296,7 @@ class UB:
     def lb(self, o):
         """a lower bound (constant, or the exact polynomial when the value is an exact affine function of parameters)"""
         if o["k"] == "int": return Poly.const(int(o["v"]))
-        if o["k"] == "arg": return self.ub(o)
+        if o["k"] == "arg": return self.ub(o) if o["v"] not in self.arg_poly else Poly.const(0)
         a = self.iv.ival(o)
         return Poly.const(max(0, int(a[0])) if a[0] != -INF else 0)
 
@@ -185,6 +326,10 @@ class UB:
             if b[0] == b[1] and b[0] != INF: return best(A(0) * Poly.const(1 << int(b[0])))
             if cu is not None: return Poly.const(cu)
             raise Unbounded("shl by a variable amount")
+        if op in ("sdiv", "srem", "ashr"):
+            a0 = self.iv.ival(i.ops[0]); b0 = self.iv.ival(i.ops[1]); sb = type_bits(i.ops[0]["t"]) or 64
+            if a0[0] < 0 or b0[0] < 0 or a0[1] >= (1 << (sb - 1)) or b0[1] >= (1 << (sb - 1)): raise Unbounded("%s of possibly negative operands at line %s" % (op, i.line))
+            op = {"sdiv": "udiv", "srem": "urem", "ashr": "lshr"}[op]
         if op in ("udiv", "lshr"):
             b = self.iv.ival(i.ops[1])
             if b[0] == b[1] and b[0] not in (INF, 0) or (op == "lshr" and b[0] == b[1] and b[0] != INF):
@@ -193,6 +338,9 @@ class UB:
             return best(A(0))
         if op == "urem":
             b = self.const_ub(i.ops[1])
+            if self.q and i.ops[1]["k"] == "int" and int(i.ops[1]["v"]) > 0:
+                e = self.exact(i.ops[0])
+                if e is not None and not e.is_const(): return urem_poly(e, int(i.ops[1]["v"]))
             if b is not None and b > 0: return Poly.const(b - 1)
             return A(0)
         if op == "and":
@@ -270,6 +418,41 @@ class UB:
                 for cv in cands:
                     p = sub.ub(cv); r = p if r is None else pmax(r, p)
             if r is not None: return r
+        # context-sensitive: the callee's result under the bounds of the actual integer arguments
+        if not g.decl and self.depth < 4:
+            argp = {}
+            for k in range(i["nargs"]):
+                if i.ops[k]["t"].endswith("*"): continue
+                try: argp[k] = self.ub(i.ops[k])
+                except Unbounded: pass
+            ckey = ("ctxret", c, tuple(sorted((k, p.key()) for k, p in argp.items())), self.q)
+            cache = self.w.__dict__.setdefault("_esize_ret", {})
+            if ckey not in cache:
+                cache[ckey] = None
+                try:
+                    sub = UB(self.w, g, depth=self.depth + 1); sub.q = self.q; sub.arg_poly = dict(argp); r = None
+                    for rt in g.rets():
+                        if not rt.ops: continue
+                        v = rt.ops[0]; cands = [v]
+                        if v["k"] == "inst" and g.imap[v["v"]].op == "phi" and g.imap[v["v"]].block is rt.block: cands = [inc["v"] for inc in g.imap[v["v"]]["incoming"]]
+                        for cv in cands:
+                            pp = sub.at(rt.block).ub(cv); r = pp if r is None else pmax(r, pp)
+                    cache[ckey] = r
+                except Unbounded:
+                    cache[ckey] = None
+            r = cache[ckey]
+            if r is not None:
+                mapping = {}; ok = True
+                for a in all_atoms(r):
+                    if isinstance(a, tuple) and a[0] in ("call", "udiv", "urem", "ind"): pass
+                    elif isinstance(a, tuple) and a[0] == "arg" and a[1] in argp: mapping[a] = argp[a[1]]
+                    elif isinstance(a, tuple) and a[0] == "field" and a[1] == "arg" and a[2] < i["nargs"]:
+                        # the callee reads a field of an object we pass: its value is what this function has accumulated there
+                        actual = i.ops[a[2]]; root = self.root_of(actual)
+                        if root in (None, "cycle") or not self.ptr_ub(actual)[1].is_const() or self.ptr_ub(actual)[1].c() != 0: ok = False; break
+                        mapping[a] = self.cell_total(root, a[3])
+                    else: ok = False; break
+                if ok: return deep_subst(r, mapping)
         key = ("ret", c)
         cache = self.w.__dict__.setdefault("_esize_ret", {})
         if key not in cache:
@@ -293,12 +476,17 @@ class UB:
         if r is not None:
             # polynomial in the callee's parameters: substitute the bounds of the actuals (needs monotonicity: coefficients >= 0)
             if r.nonneg_coeffs():
-                out = r
-                for a in list(r.atoms()):
-                    if isinstance(a, tuple) and a[0] == "arg": out = out.subst(a, self.ub(i.ops[a[1]]))
-                    elif isinstance(a, tuple) and a[0] in ("call",): pass
-                    else: out = None; break
-                if out is not None: return out
+                mapping = {}; ok = True
+                for a in all_atoms(r):
+                    if isinstance(a, tuple) and a[0] == "arg": mapping[a] = self.ub(i.ops[a[1]])
+                    elif isinstance(a, tuple) and a[0] in ("call", "udiv", "urem", "ind"): pass
+                    elif isinstance(a, tuple) and a[0] == "field" and a[1] == "arg" and a[2] < i["nargs"]:
+                        # the callee reads a field of an object we pass: its value is what this function has accumulated there
+                        actual = i.ops[a[2]]; root = self.root_of(actual)
+                        if root in (None, "cycle") or not self.ptr_ub(actual)[1].is_const() or self.ptr_ub(actual)[1].c() != 0: ok = False; break
+                        mapping[a] = self.cell_total(root, a[3])
+                    else: ok = False; break
+                if ok: return deep_subst(r, mapping)
         # a side-effect-free callee whose result we cannot bound: an uninterpreted atom of its (bounded) integer arguments
         s = self.w.pts.summ.get(c)
         if s is not None and not s.mod and not i["t"].endswith("*"):
@@ -366,6 +554,26 @@ class UB:
                 if k <= 0: continue
                 n = -(-w // k)
                 return Poly.const(n - shifted)
+        # (ii') shift loop with a threshold: continue while v > C, v >>= k
+        if pred == "ugt" and b["k"] == "int" and a["k"] == "inst" and fn.imap[a["v"]].op == "phi" and fn.imap[a["v"]].block.id == h:
+            ph = fn.imap[a["v"]]; C = int(b["v"])
+            backv = [inc["v"] for inc in ph["incoming"] if inc["b"] in body]; outv = [inc["v"] for inc in ph["incoming"] if inc["b"] not in body]
+            if len(backv) == 1 and len(outv) == 1 and backv[0]["k"] == "inst":
+                bi = fn.imap[backv[0]["v"]]
+                if bi.op == "lshr" and bi.ops[1]["k"] == "int" and bi.ops[0]["k"] == "inst" and bi.ops[0]["v"] == ph.id and int(bi.ops[1]["v"]) > 0:
+                    k = int(bi.ops[1]["v"]); w = type_bits(ph["t"]) or 64; U = (1 << w) - 1
+                    try:
+                        u0 = self.ub(outv[0])
+                        if u0.is_const() and 0 <= u0.c() < U: U = int(u0.c())
+                    except Unbounded: pass
+                    if U <= C: return Poly.const(0)
+                    return Poly.const((U.bit_length() - 1 - ((C + 1).bit_length() - 1)) // k + 1)
+        # (iii) decrement loop: continue while x >= B, x -= B
+        if a["k"] == "inst" and fn.imap[a["v"]].op == "phi" and fn.imap[a["v"]].block.id == h:
+            d = self.decrement_loop(fn.imap[a["v"]])
+            if d is not None:
+                e = self.exact(d[0]) if self.q else None
+                return udiv_poly(e if e is not None else self.ub(d[0]), d[1])
         # (i) counter: continue while i < N (step s > 0)
         flip = {"ult": "ugt", "ule": "uge", "ugt": "ult", "uge": "ule", "slt": "sgt", "sle": "sge", "sgt": "slt", "sge": "sle", "ne": "ne", "eq": "eq"}
         for (x, y, p) in ((a, b, pred), (b, a, flip[pred])):
@@ -407,10 +615,128 @@ class UB:
                 if s0 > 0: return i, s0
         return None, None
 
+    def live_incoming(self, i):
+        return [inc for inc in i["incoming"] if (inc["b"], i.block.id) not in self.dead and inc["b"] not in self.unreach]
+
+    def guard_of_join(self, ph, incs):
+        """two-way join governed by `x > 0` / `x != 0` / `x == 0`: returns (x operand, incoming taken when x > 0, incoming taken when x == 0)"""
+        fn = self.fn; idom = fn.dom(); d = fn.bmap[idom[ph.block.id]]; t = d.term
+        if t.op != "br" or len(t.ops) != 3 or t.ops[0]["k"] != "inst": return None
+        ci = fn.imap[t.ops[0]["v"]]
+        if ci.op != "icmp" or ci.ops[1]["k"] != "int" or int(ci.ops[1]["v"]) != 0 or ci["pred"] not in ("ugt", "ne", "eq"): return None
+        tru, fls = t.ops[2]["v"], t.ops[1]["v"]
+        if tru == fls: return None
+        def via(inc):
+            if inc["b"] == d.id: return tru if tru == ph.block.id else (fls if fls == ph.block.id else None)
+            a = tru != ph.block.id and fn.dominates(tru, inc["b"]); b = fls != ph.block.id and fn.dominates(fls, inc["b"])
+            return tru if a and not b else (fls if b and not a else None)
+        v0, v1 = via(incs[0]), via(incs[1])
+        if v0 is None or v1 is None or v0 == v1: return None
+        pos_succ = fls if ci["pred"] == "eq" else tru
+        pos = incs[0] if v0 == pos_succ else incs[1]; zero = incs[1] if pos is incs[0] else incs[0]
+        return ci.ops[0], pos, zero
+
+    def join(self, ph, incs, evalf):
+        """upper bound of a non-loop phi; q-mode: base + [x > 0] * extra when one side only adds"""
+        vals = [evalf(inc["v"]) for inc in incs]
+        if self.q and len(incs) == 2 and vals[0] != vals[1]:
+            g = self.guard_of_join(ph, incs)
+            if g is not None:
+                x, pos, zero = g
+                pv = vals[0] if pos is incs[0] else vals[1]; zv = vals[1] if pos is incs[0] else vals[0]
+                d = pv - zv
+                saved = self.site; self.site = ph.block
+                try: e = self.exact(x)
+                finally: self.site = saved
+                if e is not None and d.nonneg_coeffs(): return zv + ind_poly(e) * d
+        out = None
+        for v in vals: out = v if out is None else pmax(out, v)
+        return out
+
+    def block_loop(self, h):
+        """`for (i = I0; i < N; i += B) { bs = (N - i < B) ? N - i : B; ... }` -> (bs instruction id, B, exact N - I0) or None"""
+        cache = self.__dict__.setdefault("_blk", {})
+        if h in cache: return cache[h]
+        cache[h] = None
+        fn = self.fn; body = self.loops[h]
+        t = fn.bmap[h].term
+        if t.op != "br" or len(t.ops) != 3 or t.ops[0]["k"] != "inst": return None
+        ci = fn.imap[t.ops[0]["v"]]
+        if ci.op != "icmp" or ci["pred"] not in ("ult", "slt") or (t.ops[2]["v"] not in body): return None
+        ph, B = self.counter(ci.ops[0], h, body)
+        if ph is None or B <= 1: return None
+        for bid in body:                      # the header test is the only exit
+            if bid != h and any(sx.id not in body for sx in fn.bmap[bid].succs): return None
+        N = ci.ops[1]; init = [inc["v"] for inc in ph["incoming"] if inc["b"] not in body][0]
+        saved = self.site; self.site = fn.bmap[h]
+        try: eN = self.exact(N); eI = self.exact(init)
+        finally: self.site = saved
+        if eN is None or eI is None: return None
+        same = lambda a, b: (a["k"], a.get("v")) == (b["k"], b.get("v"))
+        def is_rest(o):
+            o = self.strip(o)
+            if o["k"] != "inst": return False
+            si = fn.imap[o["v"]]
+            return si.op == "sub" and same(self.strip(si.ops[0]), self.strip(N)) and same(self.strip(si.ops[1]), {"k": "inst", "v": ph.id})
+        for bid in body:
+            for m in fn.bmap[bid].insts:
+                if m.op == "phi" and len(m["incoming"]) == 2: ops = [inc["v"] for inc in m["incoming"]]
+                elif m.op == "select": ops = [m.ops[1], m.ops[2]]
+                else: continue
+                rest = [o for o in ops if is_rest(o)]; cst = [o for o in ops if o["k"] == "int" and int(o["v"]) == B]
+                if len(rest) == 1 and len(cst) == 1:
+                    cache[h] = (m.id, B, eN - eI); return cache[h]
+        return None
+
+    def strip(self, o):
+        while o["k"] == "inst" and self.fn.imap[o["v"]].op in ("zext", "sext", "trunc", "freeze"): o = self.fn.imap[o["v"]].ops[0]
+        return o
+
+    def pinned(self, bs_id, lo, hi, poly, thunk):
+        """evaluate thunk() with the block size pinned to [lo, hi] (upper bound `poly`); branches decided by the pin are pruned"""
+        fn = self.fn
+        iv = Intervals(fn, None, self.fi); iv.memo[bs_id] = (lo, hi)
+        dead = iv.dead_edges()
+        reach = set(); work = [fn.entry]
+        while work:
+            b = work.pop()
+            if b.id in reach: continue
+            reach.add(b.id)
+            for sx in b.succs:
+                if (b.id, sx.id) not in dead: work.append(sx)
+        saved = (self.iv, self.dead, self.unreach, dict(self.sub))
+        self.iv = iv; self.dead = dead; self.unreach = {b.id for b in fn.blocks} - reach; self.sub[bs_id] = poly
+        try: return thunk()
+        finally: self.iv, self.dead, self.unreach, self.sub = saved
+
+    def loop_total(self, i, init, advance, in_body):
+        """init + (number of iterations before the use) * advance-per-iteration for the header phi i of loop h.
+        advance(): bound of (back value - placeholder) under the current pins."""
+        h = i.block.id
+        blk = self.block_loop(h) if self.q else None
+        if blk is None:
+            adv = advance()
+            if adv.is_const() and adv.c() <= 0: return init
+            if not adv.nonneg_coeffs(): raise Unbounded("advance with negative terms")
+            return init + self.trips(h) * adv
+        bs_id, B, span = blk
+        q = udiv_poly(span, B); rho = urem_poly(span, B)
+        full = self.pinned(bs_id, B, B, Poly.const(B), advance)
+        case = self.block_case.get(h)
+        if in_body and case == "full": return init + (q - Poly.const(1)) * full          # an earlier iteration: all before it are full
+        if in_body and case == "part": return init + q * full                             # the last, partial iteration
+        part = self.pinned(bs_id, 1, B - 1, rho, advance)
+        return init + q * full + ind_poly(rho) * part
+
     def phi_ub(self, i):
         fn = self.fn; h = i.block.id
         if h in self.loops and any(inc["b"] in self.loops[h] for inc in i["incoming"]):
             body = self.loops[h]
+            if self.q and self.outside(h):
+                d = self.decrement_loop(i)
+                if d is not None:
+                    e = self.exact(d[0])
+                    return urem_poly(e, d[1]) if e is not None else Poly.const(d[1] - 1)
             init = None
             for inc in i["incoming"]:
                 if inc["b"] not in body:
@@ -418,24 +744,22 @@ class UB:
             if init is None: raise Unbounded("loop phi without an entry value")
             # largest advance in one iteration: bound of the back value with this phi := placeholder P, minus P
             P = Poly.atom(("phi", i.id))
-            adv = None
-            saved = dict(self.sub); self.sub[i.id] = P
-            try:
-                for inc in i["incoming"]:
-                    if inc["b"] in body:
-                        b = self.ub(inc["v"])
-                        d = b - P
-                        if ("phi", i.id) in d.atoms(): raise Unbounded("loop value grows non-additively (line %s)" % i.line)
-                        adv = d if adv is None else pmax(adv, d)
-            finally:
-                self.sub = saved
-            if adv.is_const() and adv.c() <= 0: return init
-            if not adv.nonneg_coeffs(): raise Unbounded("advance with negative terms")
-            return init + self.trips(h) * adv
-        out = None
-        for inc in i["incoming"]:
-            p = self.ub(inc["v"]); out = p if out is None else pmax(out, p)
-        return out
+            def advance():
+                adv = None
+                saved = dict(self.sub); self.sub[i.id] = P; ctx = (self.H, self.site, self.memo)
+                try:
+                    for inc in i["incoming"]:
+                        if inc["b"] in body:
+                            self.at(fn.bmap[inc["b"]])          # the back value is taken at the latch, not at the use site
+                            b = self.ub(inc["v"])
+                            d = b - P
+                            if ("phi", i.id) in d.atoms(): raise Unbounded("loop value grows non-additively (line %s)" % i.line)
+                            adv = d if adv is None else pmax(adv, d)
+                finally:
+                    self.sub = saved; self.H, self.site, self.memo = ctx
+                return adv
+            return self.loop_total(i, init, advance, self.site is not None and self.site.id in body and self.site.id != h)
+        return self.join(i, self.live_incoming(i), self.ub)
 
     # ---- pointers: (root, upper bound of the byte offset) ----
     def ptr_ub(self, o):
@@ -445,10 +769,11 @@ class UB:
         if o["v"] in self.sub: return self.subroot[o["v"]], self.sub[o["v"]]
         key = ("p", o["v"])
         if key in self.memo: return self.memo[key]
-        if key in self.busy: raise Unbounded("cyclic pointer")
-        self.busy.add(key)
+        bk = key + (tuple(sorted(self.sub)),)
+        if bk in self.busy: raise Unbounded("cyclic pointer")
+        self.busy.add(bk)
         try: r = self._ptr_ub(fn.imap[o["v"]])
-        finally: self.busy.discard(key)
+        finally: self.busy.discard(bk)
         if not self.sub: self.memo[key] = r
         return r
 
@@ -471,25 +796,29 @@ class UB:
                 for inc in i["incoming"]:
                     if inc["b"] not in body:
                         r, p = self.ptr_ub(inc["v"]); root = r; init = p if init is None else pmax(init, p)
-                P = Poly.atom(("phi", i.id)); adv = None
-                saved = dict(self.sub); savedroot = dict(self.subroot)
-                self.sub[i.id] = P; self.subroot = dict(self.subroot); self.subroot[i.id] = root
-                try:
-                    for inc in i["incoming"]:
-                        if inc["b"] in body:
-                            r2, b = self.ptr_ub(inc["v"])
-                            d = b - P
-                            if ("phi", i.id) in d.atoms(): raise Unbounded("pointer grows non-additively")
-                            adv = d if adv is None else pmax(adv, d)
-                finally:
-                    self.sub = saved; self.subroot = savedroot
-                if adv.is_const() and adv.c() <= 0: return root, init
-                return root, init + self.trips(h) * adv
-            root = None; out = None
-            for inc in i["incoming"]:
-                if inc["v"]["k"] == "null": continue
-                r, p = self.ptr_ub(inc["v"]); root = r; out = p if out is None else pmax(out, p)
-            return root, out
+                P = Poly.atom(("phi", i.id))
+                def advance():
+                    adv = None
+                    saved = dict(self.sub); savedroot = dict(self.subroot); ctx = (self.H, self.site, self.memo)
+                    self.sub[i.id] = P; self.subroot = dict(self.subroot); self.subroot[i.id] = root
+                    try:
+                        for inc in i["incoming"]:
+                            if inc["b"] in body:
+                                self.at(self.fn.bmap[inc["b"]])
+                                r2, b = self.ptr_ub(inc["v"])
+                                d = b - P
+                                if ("phi", i.id) in d.atoms(): raise Unbounded("pointer grows non-additively")
+                                adv = d if adv is None else pmax(adv, d)
+                    finally:
+                        self.sub = saved; self.subroot = savedroot; self.H, self.site, self.memo = ctx
+                    return adv
+                return root, self.loop_total(i, init, advance, self.site is not None and self.site.id in body and self.site.id != h)
+            root = None
+            live = [inc for inc in self.live_incoming(i) if inc["v"]["k"] != "null"]
+            def ev(o):
+                nonlocal root
+                r, p = self.ptr_ub(o); root = r; return p
+            return root, self.join(i, live, ev)
         if i.op == "select":
             r, a = self.ptr_ub(i.ops[1]); r2, b = self.ptr_ub(i.ops[2]); return r, pmax(a, b)
         if i.op == "load":
@@ -498,64 +827,229 @@ class UB:
         raise Unbounded("pointer from %s at line %s" % (i.op, i.line))
 
 
+    def tight(self, o):
+        """the exact value when it is expressible (q-mode), else an upper bound"""
+        if self.q:
+            e = self.exact(o)
+            if e is not None: return e
+        return self.ub(o)
+
+    def root_of(self, o, seen=None):
+        """base object of a pointer through casts, geps, selects and (cyclic) phis: ('arg', k) / ('alloca', id) / None when mixed or unknown"""
+        seen = seen if seen is not None else set()
+        if o["k"] == "arg": return ("arg", o["v"])
+        if o["k"] != "inst": return None
+        if o["v"] in seen: return "cycle"
+        seen.add(o["v"])
+        i = self.fn.imap[o["v"]]
+        if i.op in ("bitcast", "getelementptr"): return self.root_of(i.ops[0], seen)
+        if i.op == "alloca": return ("alloca", i.id)
+        if i.op in ("phi", "select"):
+            ops = [inc["v"] for inc in i["incoming"]] if i.op == "phi" else [i.ops[1], i.ops[2]]
+            rs = {self.root_of(x, seen) for x in ops if x["k"] != "null"} - {"cycle"}
+            if not rs: return "cycle"
+            return next(iter(rs)) if len(rs) == 1 else None
+        if i.op == "load":
+            src = self.fi.load_source(i)
+            if src is not None: return self.root_of(src, seen)
+        return None
+
+    # ---- memory-carried counters (a cursor kept in a struct field, e.g. the bit position of a writer object) ----
+    def is_cell(self, p, root, off):
+        if self.root_of(p) != root: return False
+        try: o = self.ptr_ub(p)[1]
+        except Unbounded: return False
+        return o.is_const() and o.c() == off
+
+    def execs(self, b):
+        """upper bound of the number of times block b executes per call of this function"""
+        ctx = (self.H, self.site, self.memo); self.at(b); n = Poly.const(1)
+        try:
+            for h, body in self.loops.items():
+                if b.id in body:
+                    be = self.backedges(h)
+                    n = n * (be if (h in self.H or b.id == h and False) else be + Poly.const(1))
+        finally:
+            self.H, self.site, self.memo = ctx
+        return n
+
+    def cell_effect(self, root, off):
+        """what this function does to the integer cell at (root, off): ([values it may be set to], total it may be increased by)"""
+        key = ("cell", root, off)
+        if key in self.memo: return self.memo[key]
+        fn = self.fn; sets = []; add = Poly()
+        def loads_cell(o, depth=0):
+            if o["k"] != "inst" or depth > 8: return False
+            x = fn.imap[o["v"]]
+            if x.op == "load": return self.is_cell(x.ops[0], root, off)
+            if x.op == "phi": return any(loads_cell(inc["v"], depth + 1) for inc in x["incoming"])
+            return any(loads_cell(y, depth + 1) for y in x.ops if y["k"] == "inst")
+        for b in fn.blocks:
+            for i in b.insts:
+                if i.op == "store" and self.is_cell(i.ops[1], root, off):
+                    v = self.strip(i.ops[0])
+                    vi = fn.imap[v["v"]] if v["k"] == "inst" else None
+                    if vi is not None and vi.op == "add":
+                        a0, a1 = self.strip(vi.ops[0]), self.strip(vi.ops[1])
+                        l0 = a0["k"] == "inst" and fn.imap[a0["v"]].op == "load" and self.is_cell(fn.imap[a0["v"]].ops[0], root, off)
+                        l1 = a1["k"] == "inst" and fn.imap[a1["v"]].op == "load" and self.is_cell(fn.imap[a1["v"]].ops[0], root, off)
+                        if l0 != l1:
+                            x = vi.ops[1] if l0 else vi.ops[0]
+                            if loads_cell(x): raise Unbounded("cell updated non-additively at line %s" % i.line)
+                            self.at(b); add = add + self.execs(b) * self.ub(x); continue
+                    if loads_cell(i.ops[0]): raise Unbounded("cell updated non-additively at line %s" % i.line)
+                    self.at(b); sets.append(self.ub(i.ops[0]))
+                elif i.op == "call":
+                    c = i.get("callee") or ""
+                    if c.startswith("llvm.") and not c.startswith(("llvm.memset", "llvm.memcpy", "llvm.memmove")): continue
+                    for k in range(i["nargs"]):
+                        a = i.ops[k]
+                        if not a["t"].endswith("*") or self.root_of(a) != root: continue
+                        if c.startswith("llvm.mem"):
+                            if k == 0: raise Unbounded("cell's object overwritten by %s at line %s" % (c, i.line))
+                            continue
+                        po = self.ptr_ub(a)[1]
+                        if not (po.is_const() and po.c() == 0): raise Unbounded("interior pointer of the tracked object passed to %s" % c)
+                        g = self.mod.fn(c)
+                        if g is None or g.decl:
+                            sm = self.w.pts.summ.get(c)
+                            if sm is not None and not any(m[0] == "arg" and m[1] == k for m in sm.mod if isinstance(m, tuple)): continue
+                            raise Unbounded("tracked object passed to external %s" % c)
+                        if self.depth >= 4: raise Unbounded("call depth")
+                        sub = UB(self.w, g, depth=self.depth + 1)
+                        self.at(b)
+                        for j in range(i["nargs"]):
+                            if not i.ops[j]["t"].endswith("*"):
+                                try: sub.arg_poly[j] = self.ub(i.ops[j])
+                                except Unbounded: pass
+                        s2, a2 = sub.cell_effect(("arg", k), off)
+                        sets += s2
+                        if a2.t: add = add + self.execs(b) * a2
+        self.at(fn.entry)
+        self.memo[key] = (sets, add)
+        return sets, add
+
+    def cell_total(self, root, off):
+        sets, add = self.cell_effect(root, off)
+        if not sets: raise Unbounded("the counter at offset %s of %s is never initialised in %s" % (off, root, self.fn.name))
+        m = sets[0]
+        for x in sets[1:]: m = pmax(m, x)
+        return m + add
+
     # ---- write extents ----
-    def extent(self, B, root, depth=0):
-        """upper bound (Poly) of offset + size over every write this function makes through `root`, and the number of write sites"""
+    def cases_at(self, b, thunk):
+        """[(bound, condition)] of thunk() evaluated at block b; inside a block loop once per kind of iteration (full / last partial).
+        condition: None, or a polynomial that must be > 0 for the case to occur"""
+        self.at(b)
+        if self.q:
+            for h, body in self.loops.items():
+                if b.id in body and b.id != h and h in self.H:
+                    blk = self.block_loop(h)
+                    if blk is None: continue
+                    bs_id, B, span = blk; rho = urem_poly(span, B); out = []
+                    for case, lo, hi, poly, cond in (("full", B, B, Poly.const(B), udiv_poly(span, B)), ("part", 1, B - 1, rho, rho)):
+                        self.block_case[h] = case
+                        try: out.append((self.pinned(bs_id, lo, hi, poly, thunk), cond))
+                        finally: self.block_case.pop(h, None)
+                    return out
+        return [(thunk(), None)]
+
+    def extent(self, B, root, depth=0, indirect=None):
+        """upper bounds of offset + size over every write this function makes through `root`: ([(Poly, condition)], number of sites)"""
         from .bounds import MEM_INTR
         from .core import ALLOC_FUNCS
-        fn = self.fn; fi = self.fi; worst = []; n = 0          # worst: the maximal bounds seen (pairwise incomparable)
+        fn = self.fn; fi = self.fi; worst = []; n = 0          # worst: the maximal bounds seen (pairwise incomparable, per condition)
         live = B.live_blocks(fn)
-        def note(p):
+        def note(cs):
             nonlocal worst, n
             n += 1
-            if any((q - p).nonneg_coeffs() for q in worst): return
-            worst = [q for q in worst if not (p - q).nonneg_coeffs()] + [p]
+            for p, cond in cs:
+                ck = None if cond is None else cond.key()
+                if any(c2 == ck and (q - p).nonneg_coeffs() for q, c2, _ in worst): continue
+                worst = [(q, c2, cd) for q, c2, cd in worst if not (c2 == ck and (p - q).nonneg_coeffs())] + [(p, ck, cond)]
         for b in fn.blocks:
             if b.id not in live: continue
             for i in b.insts:
                 if i.op == "store":
-                    if fi.ptr(i.ops[1])[0] != root: continue
-                    self.at(b); note(self.ptr_ub(i.ops[1])[1] + Poly.const(i["size"]))
+                    if self.root_of(i.ops[1]) != root: continue
+                    note(self.cases_at(b, lambda: self.ptr_ub(i.ops[1])[1] + Poly.const(i["size"])))
                 elif i.op == "call":
                     c = i.get("callee")
                     if c and c.startswith(MEM_INTR):
-                        if fi.ptr(i.ops[0])[0] != root: continue
-                        self.at(b); note(self.ptr_ub(i.ops[0])[1] + self.ub(i.ops[2]))
+                        if self.root_of(i.ops[0]) != root: continue
+                        note(self.cases_at(b, lambda: self.ptr_ub(i.ops[0])[1] + self.tight(i.ops[2])))
                     elif c and (c.startswith("llvm.") or c in ALLOC_FUNCS or c == "free"): continue
                     else:
                         for k in range(i["nargs"]):
                             a = i.ops[k]
                             if not a["t"].endswith("*"): continue
-                            if fi.ptr(a)[0] != root:
-                                if B.indirect_access(fn, i, k, root, "w"): raise Unbounded("%s writes the output through a pointer kept in a local object (line %s)" % (c, i.line))
+                            if self.root_of(a) != root:
+                                if B.indirect_access(fn, i, k, root, "w"):
+                                    if indirect is None: raise Unbounded("%s writes the output through a pointer kept in a local object (line %s)" % (c, i.line))
+                                    indirect.append((c, i.line))
                                 continue
                             w = B.summary(c, k, "w") if c else ("inf", "indirect call")
                             if w[0] == "none": continue
-                            self.at(b)
-                            cands = []
-                            for alt in (w[1] if w[0] == "alts" else [w]):
-                                if alt[0] == "const": cands.append(Poly.const(alt[1]))
-                                elif alt[0] == "arg":
-                                    try: cands.append(self.ub(i.ops[alt[1]]) * Poly.const(alt[2]))
+                            def callsite():
+                                cands = []
+                                for alt in (w[1] if w[0] == "alts" else [w]):
+                                    if alt[0] == "const": cands.append(Poly.const(alt[1]))
+                                    elif alt[0] == "arg":
+                                        try: cands.append(self.tight(i.ops[alt[1]]) * Poly.const(alt[2]))
+                                        except Unbounded: pass
+                                g = self.mod.fn(c) if c else None
+                                if g is not None and not g.decl and depth < 3:
+                                    try:
+                                        sub = UB(self.w, g, depth=self.depth + 1)
+                                        for j in range(i["nargs"]):
+                                            if not i.ops[j]["t"].endswith("*"):
+                                                try: sub.arg_poly[j] = self.ub(i.ops[j])
+                                                except Unbounded: pass
+                                        e, _ = sub.extent(B, ("arg", k), depth + 1)
+                                        if e:
+                                            m = e[0][0]
+                                            for q, _c in e[1:]: m = pmax(m, q)
+                                            cands.append(m)
                                     except Unbounded: pass
-                            g = self.mod.fn(c) if c else None
-                            if g is not None and not g.decl and depth < 3:
-                                try:
-                                    sub = UB(self.w, g, depth=self.depth + 1)
-                                    for j in range(i["nargs"]):
-                                        if not i.ops[j]["t"].endswith("*"):
-                                            try: sub.arg_poly[j] = self.ub(i.ops[j])
-                                            except Unbounded: pass
-                                    e, _ = sub.extent(B, ("arg", k), depth + 1)
-                                    if e:
-                                        m = e[0]
-                                        for q in e[1:]: m = pmax(m, q)
-                                        cands.append(m)
-                                except Unbounded: pass
-                            if not cands: raise Unbounded("extent of %s through its argument %d (line %s): %s" % (c, k, i.line, w[1] if w[0] == "inf" else w))
-                            best = cands[0]
-                            for cnd in cands[1:]:
-                                if (best - cnd).nonneg_coeffs(): best = cnd
-                            note(self.ptr_ub(a)[1] + best)
+                                if not cands: raise Unbounded("extent of %s through its argument %d (line %s): %s" % (c, k, i.line, w[1] if w[0] == "inf" else w))
+                                best = cands[0]
+                                for cnd in cands[1:]:
+                                    if (best - cnd).nonneg_coeffs(): best = cnd
+                                return self.ptr_ub(a)[1] + best
+                            note(self.cases_at(b, callsite))
         self.at(fn.entry)
-        return worst, n
+        return [(p, cd) for p, _k, cd in worst], n
+
+
+def residue_eval(p, n_atom, M, r, qpos):
+    """value of p for n = M*q + r as a polynomial in the atom ("q",) - with q = 1 + q' (q' >= 0) when qpos, q = 0 otherwise.
+    div / mod / indicator atoms over n are evaluated; other atoms are kept.  Raises Unbounded when a division does not come out even."""
+    Q = Poly.atom(("q",))
+    nval = (Poly.const(M) * (Q + Poly.const(1)) + Poly.const(r)) if qpos else Poly.const(r)
+    def lin(e):
+        """(a, b) with e == a*q' + b, or None"""
+        if any(k not in ((), (("q",),)) for k in e.t): return None
+        return e.t.get((("q",),), Fraction(0)), e.t.get((), Fraction(0))
+    def ev_atom(a):
+        if a == n_atom: return nval
+        if isinstance(a, tuple) and a[0] in ("udiv", "urem", "ind"):
+            inner = ev(poly_of_key(a[1])); ab = lin(inner)
+            if ab is None: raise Unbounded("residue evaluation: %s over a non-linear argument" % a[0])
+            aa, bb = ab
+            if a[0] == "ind":
+                if aa == 0: return Poly.const(1 if bb > 0 else 0)
+                if aa > 0 and bb > 0: return Poly.const(1)
+                raise Unbounded("residue evaluation: sign of %r is not fixed" % inner)
+            c = a[2]
+            if aa.denominator != 1 or bb.denominator != 1 or int(aa) % c != 0: raise Unbounded("residue evaluation: %r is not divisible by %d" % (inner, c))
+            if a[0] == "udiv": return Q * Poly.const(int(aa) // c) + Poly.const(int(bb) // c)
+            return Poly.const(int(bb) % c)
+        return Poly.atom(a)
+    def ev(e):
+        out = Poly()
+        for k, v in e.t.items():
+            term = Poly.const(v)
+            for x in k: term = term * ev_atom(x)
+            out = out + term
+        return out
+    return ev(p)
